@@ -636,6 +636,10 @@ func c19ServiceList(c *Ctx, run *ssa.Function, tcall *ssa.Call, svcList ssa.Valu
 		}
 	}
 	walk(svcList)
+	for _, a := range entryAllocs {
+		c.Check(InLoop(a.Block()) && a.Heap, "entry-struct-fresh", "Run port entry struct", p.InstrPos(a), "each [[port]] entry is decoded into a fresh zero struct", "the struct a [[port]] entry is decoded into is allocated once outside the entry loop: keys absent from a later entry (port/ports/services) keep the previous entry's values")
+		break
+	}
 	// fresh per entry: the initial nil of the list is injected inside the iteration that decoded this entry
 	for _, pred := range nilPreds {
 		fresh := tcall.Block().Dominates(pred)
